@@ -61,6 +61,11 @@ def programs(tier):
             "(lambda S: (L.a + S) + 1)(((L.c.sum() + 1) * 2).optimize())",
             "(lambda A, B: (A + B) * 2)((L + 1).optimize(), (R[['a', 'b']].repartition(npartitions=L.npartitions) * 2).optimize()[['a', 'b']])" if False else "(lambda A: (A * 2).a + A.c)((L + 1).optimize())",
         ]
+        # parquet sources: the reader itself is fused over several files (FusedIO / FusedParquetIO) before the element-wise chain is
+        for how in ("parquet", "parquet-arrow"):
+            srcP = Src("L", nrows + 2, LCOLS, nparts + 2, how=how)
+            for s_ in ("L[['a']] + 1", "(L[['a', 'c']] * 2).c", "(L + 1).fillna(0)", "L.a + L.c", "(L[['c']] + 1).assign(z=lambda d: d.c * 2)", "L[['a']].partitions[[1, 2]] + 1", "(L.a + L.a.sum()) * 2", "L[L.a > 0][['c']] + 1"):
+                progs.append(Program(s_, [srcP], ordered=True, family="F14", note=f"{how}/chain"))
         for s in shapes:
             srcs = [srcL, srcR] if "R" in s else [srcL]
             import dask_expr as dx
